@@ -63,6 +63,15 @@ def run(ctx):
             want = int.from_bytes(bytes(ref['addr']), 'big')
             got = call(netutils.get_ipv6_addr_by_EUI64, ptxt, mtxt)
             ok = got[0] == 'ok' and int(got[1]) == want
+            if ok and counts['eui'] % 2:
+                # the address object belongs to the caller: move it on (netaddr addresses are mutable), ask again
+                try:
+                    obj = got[1]
+                    obj += 1
+                except Exception:
+                    pass
+                got = call(netutils.get_ipv6_addr_by_EUI64, ptxt, mtxt)
+                ok = got[0] == 'ok' and int(got[1]) == want
             if not ok:
                 ctx.violation({'kind': 'eui64-address', 'plen': c['plen'], 'got': got[0]},
                               {'prefix': ptxt, 'mac': mtxt, 'expected': str(ipaddress.IPv6Address(want)), 'observed': str(got[1])},
@@ -147,6 +156,15 @@ def run(ctx):
                         if vals:
                             want[name] = vals[0] if len(vals) == 1 else (vals[-1] if collapse else list(vals))
                     gotp = call(r.params, collapse)
+                    if gotp[0] == 'ok' and isinstance(gotp[1], dict) and gotp == ('ok', want):
+                        # the caller owns the dict it gets: edit it, ask again (here and on a fresh result object)
+                        gotp[1]['limit'] = 'added by the caller'
+                        again = call(r.params, collapse)
+                        fresh = call(netutils.urlsplit(url, c['dscheme'], c['allow']).params, collapse)
+                        if again != ('ok', want) or fresh != ('ok', want):
+                            gotp = again if again != ('ok', want) else fresh
+                        else:
+                            gotp = ('ok', want)
                     if gotp != ('ok', want):
                         ctx.violation({'kind': 'params', 'query': c['query'], 'collapse': collapse},
                                       {'url': url, 'expected': want, 'observed': repr(gotp)},
